@@ -296,6 +296,35 @@ func (g *Gated) after(si int, kind string, before []wire.Entry, r *wire.Result) 
 	if g.OnCmd != nil && !g.E.Failed() {
 		g.OnCmd(si, kind, before, r)
 	}
+	g.learnUIDs(si)
+}
+
+// learnUIDs is client behaviour: after new messages were announced the client asks for
+// their UIDs (runs with cfg lazyuid=1 do not).
+func (g *Gated) learnUIDs(si int) {
+	s := g.Sess[si]
+	if g.E.Sc.C("lazyuid") == 1 || s.C.Dead || s.InIdle || g.Sel[si] < 0 || g.E.Failed() {
+		return
+	}
+	lo, hi := 0, 0
+	for i, m := range s.M.Msgs {
+		if m.UID == 0 {
+			if lo == 0 {
+				lo = i + 1
+			}
+			hi = i + 1
+		}
+	}
+	if lo == 0 {
+		return
+	}
+	r := s.Cmd("FETCH %d:%d (UID)", lo, hi)
+	g.E.Tr.Event("learn-uids", si, lo, hi, r.Status)
+	if r.Bye || r.Closed {
+		s.C.Dead = true
+		g.Sel[si] = -1
+	}
+	g.streamViol(s)
 }
 
 func (g *Gated) streamViol(s *world.Sess) {
